@@ -676,6 +676,23 @@ func (c *Ctx) LeavesF(x *X, at ssa.Instruction) []Leaf {
 			}
 			return
 		}
+		// a field of a struct a helper returned: that field of each struct the helper can return
+		if sx := strip(x); sx != nil && sx.Op == "field" && len(sx.Args) == 1 && d < 5 {
+			if hc, _ := helperCall(sx.Args[0]); hc != nil {
+				if balts := c.RetAlts(sx.Args[0]); len(balts) > 0 {
+					for _, a := range balts {
+						fx := &X{Op: "field", Name: sx.Name, Args: []*X{a.Val}}
+						v := c.throughCell(fx, nil, nil)
+						if v == fx {
+							out = append(out, Leaf{Val: x, Facts: facts})
+							continue
+						}
+						rec(v, append(append([]Fact{}, facts...), a.Facts...), d+1)
+					}
+					return
+				}
+			}
+		}
 		call, idx := helperCall(x)
 		alts := c.RetAlts(x)
 		if call == nil || len(alts) == 0 || d >= 5 {
